@@ -241,9 +241,26 @@ def main():
                 parts.append(rnd.randbytes(rnd.randint(10, 4000)))
         return b"".join(parts)
 
+    # second fixture for out = "bd_tail": a source whose LAST chunk repeats an earlier one (A B C A, fixed-size chunks), so that the end of the last
+    # first-time chunk (E) lies before the end of the source (T); the block device has a size in [E, T)
+    blk2 = [rnd.randbytes(4096) for _ in range(3)]
+    source2 = blk2[0] + blk2[1] + blk2[2] + blk2[0]
+    src2_path = os.path.join(fx, "source2.bin")
+    open(src2_path, "wb").write(source2)
+    arch2_path = os.path.join(fx, "source2.cba")
+    subprocess.run([a.bita, "compress", "-i", src2_path, arch2_path, "--fixed-size", "4096", "--compression", "none"], env=env, check=True, stdout=subprocess.DEVNULL, stderr=subprocess.DEVNULL)
+    arch2 = open(arch2_path, "rb").read()
+    bad2 = bytearray(arch2)
+    bad2[40] ^= 0x10
+    open(os.path.join(fx, "invalid2.cba"), "wb").write(bytes(bad2))
+    good_sum2 = header_checksum(arch2)
+    wrong_sum2 = ("%02x" % (int(good_sum2[:2], 16) ^ 0xFF)) + good_sum2[2:]
     srv, port = start_server()
     RangeHandler.data["/source.cba"] = arch
     RangeHandler.data["/invalid.cba"] = bytes(bad)
+    RangeHandler.data["/source2.cba"] = arch2
+    RangeHandler.data["/invalid2.cba"] = bytes(bad2)
+    source1, good_sum1, wrong_sum1 = source, good_sum, wrong_sum
     w = open(a.out, "w")
     nrun = 0
     with open(a.modes) as f:
@@ -256,9 +273,13 @@ def main():
         out = os.path.join(d, "out.bin" if m["cmd"] == "clone" else "out.cba")
         roles = {out: "output"}
         run_env = dict(env)
+        tail = m["out"] == "bd_tail"
+        source, good_sum, wrong_sum, sfx = (source2, good_sum2, wrong_sum2, "2") if tail else (source1, good_sum1, wrong_sum1, "")
         # prior content of the output
         if m["out"] != "absent":
-            if m["out"] == "bd_small":
+            if tail:
+                prior = rnd.randbytes(rnd.choice([3 * 4096, 3 * 4096 + 512, 4 * 4096 - 512, 4 * 4096 - 1]))
+            elif m["out"] == "bd_small":
                 prior = edited(max(1, len(order) // 3))[: len(source) - 1 - rnd.randint(0, 5000)]
             elif m["out"] == "bd_equal":
                 prior = (edited(len(order)) + rnd.randbytes(len(source)))[: len(source)]
@@ -293,7 +314,7 @@ def main():
                 stdin_data = edited(len(order) // 3)
             if m["verify_out"]:
                 args.append("--verify-output")
-            name = "invalid.cba" if m["arch"] == "invalid" else "source.cba"
+            name = ("invalid%s.cba" if m["arch"] == "invalid" else "source%s.cba") % sfx
             if m["transport"] == "http":
                 args.append("http://127.0.0.1:%d/%s" % (port, name))
             else:
@@ -318,6 +339,10 @@ def main():
             args.append(out)
             args += chunk_args
             roles[str(__import__("pathlib").Path(out).with_suffix("..tmp"))] = "temp"
+        tmp_path = str(__import__("pathlib").Path(out).with_suffix("..tmp"))
+        if m.get("stale_tmp", "none") != "none":
+            open(tmp_path, "wb").write(rnd.randbytes(len(source) * 2 + 50000 if m["stale_tmp"] == "longer" else 11))
+        tmp_before = file_state(tmp_path)
         before = file_state(out)
         listing_before = sorted(os.listdir(d))
         st = os.path.join(d, "strace.txt")
@@ -345,7 +370,7 @@ def main():
         evs.append({"ev": "after", "exit": code, "msg": msg, "exists": after["exists"], "len": after["len"], "digest": after["digest"],
                     "out_eq_src": outdata == source, "out_prefix_eq_src": outdata[: len(source)] == source and len(outdata) >= len(source),
                     "listing": listing_after, "new_files": sorted(set(listing_after) - set(listing_before)), "gone_files": sorted(set(listing_before) - set(listing_after)),
-                    "strace_calls": len(calls)})
+                    "tmp_unchanged": file_state(tmp_path) == tmp_before, "strace_calls": len(calls)})
         evs.append({"ev": "done"})
         for e in evs:
             w.write(json.dumps(e) + "\n")
